@@ -21,7 +21,7 @@ from vcheck import coq_bytes, coq_list, ROOT
 
 FUEL = 300
 CORE_VARS = ["x", "y", "z", "v", "i", "j"] + ["w%d" % i for i in range(1, 13)]
-ABORTS = ["AFuel", "AUnsupported", "ABadCount", "ABadStatus", "AReturnOutside", "ABreakInCond", "AEmptyCond", "ASetInIgnored"]
+ABORTS = ["AFuel", "AUnsupported", "ABadCount", "ABadStatus", "AReturnOutside", "ABreakInCond", "AEmptyCond", "ASetInIgnored", "ANegatedInSubshell"]
 
 # known-finding classes decided on the SOURCE TEXT of a program (search leg; Go twin of the Sem aborts
 # where they overlap).  Each names one mechanism.
@@ -43,6 +43,9 @@ def run_bash(srcs, timeout=4, workers=8):
         os.mkdir(d)
         env = {"PATH": "/nonexistent", "HOME": d, "LC_ALL": "C.UTF-8", "TMPDIR": d}
         res = None
+        if "\0" in src:
+            shutil.rmtree(d, ignore_errors=True)
+            return {"out": "", "status": -1, "skipped": True}
         for attempt, to in enumerate((timeout, timeout * 8)):
             try:
                 p = subprocess.run([bash, "--norc", "--noprofile", "-c", src], cwd=d, env=env,
@@ -80,7 +83,7 @@ Definition vars_agree (m g : list (str * str)) : bool :=
   forallb (fun n => optstr_eqb (lookup n m) (lookup n g)) names.
 Definition abort_num (a : abort) : N :=
   match a with AFuel => 1 | AUnsupported => 2 | ABadCount => 3 | ABadStatus => 4 | AReturnOutside => 5
-  | ABreakInCond => 6 | AEmptyCond => 7 | ASetInIgnored => 8 end.
+  | ABreakInCond => 6 | AEmptyCond => 7 | ASetInIgnored => 8 | ANegatedInSubshell => 9 end.
 (* per case: 1 flags stuck | 2 flags<>go | 4 sem<>bash | 8 flags<>sem | 16*abort reason *)
 Definition judge (c : prog * (str * N * list (str * str)) * (str * N) * (bool * bool)) : N :=
   let '(p, (gout, gst, gvars), (bout, bst), (have_go, have_bash)) := c in
@@ -184,6 +187,121 @@ def core_legs(ctx, binp, n):
         ctx.sample({"src": r["src"], "go": [r["go"]["out"], r["go"]["status"]], "bash": [r["bash"]["out"], r["bash"]["status"]]})
 
 
+WITNESSES = [
+    ("pipeline_last_stage_in_parent", "true | a=5; echo $a"),
+    ("funcdecl_followed_by_andor", "f() { true; } && echo x; echo y"),
+    ("cstyle_for_stops_after_failing_body", "for ((i=0;i<3;i++)); do echo $i; false; done"),
+    ("err_trap_fires_on_exit_builtin", "trap 'echo err' ERR; exit 2"),
+    ("errexit_inherited_by_command_substitution", "set -e; x=$(false; echo hi); echo $x"),
+    ("core_AReturnOutside", "f() { (return 3; echo x); echo y $?; }; f"),
+    ("core_AReturnOutside", "return 3; echo $?"),
+    ("core_ABreakInCond", "for i in 1; do if ! break; then echo a; fi; done; echo $?"),
+    ("core_ABadStatus", "exit a; echo a $?"),
+    ("core_ABadCount", "for i in 1 2; do echo $i; break 1 2; echo x; done; echo s=$?"),
+    ("core_ASetInIgnored", "! { set -e; false; }; echo after $?"),
+    ("core_ANegatedInSubshell", "set -e; ( ! { false; echo a; } ); echo after $?"),
+]
+
+
+def differs(g, b):
+    return g["out"] != b["out"] or g["status"] != b["status"]
+
+
+def run_sources(ctx, binp, srcs, tag):
+    """interp (worker) and bash on a list of sources -> list of (go, bash)"""
+    path = os.path.join(tempfile.gettempdir(), "c26_%s_%d_%d.jsonl" % (tag, ctx.seed, os.getpid()))
+    with open(path, "w") as f:
+        for s in srcs:
+            f.write(json.dumps({"src": s}) + "\n")
+    try:
+        rc, rows, err = ctx.jsonl([binp, "run", "-in", path], timeout=900)
+    finally:
+        os.remove(path)
+    if rc != 0 or len(rows) != len(srcs):
+        ctx.broken.append(("harness-run", "c26 run failed rc=%d %s" % (rc, err[-400:])))
+        return None
+    bres = run_bash(srcs)
+    return [(r["go"], b) for r, b in zip(rows, bres)]
+
+
+def witness_leg(ctx, binp):
+    res = run_sources(ctx, binp, [w[1] for w in WITNESSES], "wit")
+    if res is None:
+        return
+    still = 0
+    for (klass, src), (g, b) in zip(WITNESSES, res):
+        if g.get("hang") or g.get("status", -1) < 0 or b.get("status", -1) < 0 or differs(g, b):
+            still += 1
+            ctx.fail("stdout_status_equal_bash", {"src": src}, klass,
+                     {"go": [g.get("out"), g.get("status")], "bash": [b.get("out"), b.get("status")]})
+    ctx.extra["witnesses_still_failing"] = "%d/%d" % (still, len(WITNESSES))
+
+
+def wide_leg(ctx, binp, n):
+    rc, rows, err = ctx.jsonl([binp, "wide", "-seed", str(ctx.seed), "-n", str(n)], timeout=900)
+    if rc != 0 or not rows:
+        ctx.broken.append(("harness-run", "c26 wide failed rc=%d %s" % (rc, err[-600:])))
+        return
+    bres = run_bash([r["src"] for r in rows])
+    for r, b in zip(rows, bres):
+        g = r["go"]
+        if g.get("parse_err"):
+            ctx.broken.append(("harness-run", "generated program does not parse: " + g["parse_err"]))
+            continue
+        if g.get("hang") or g.get("panic"):
+            ctx.fail("interp_hangs_or_panics", {"src": r["src"]}, None, {"go": g})
+            continue
+        if g.get("status", -1) < 0 or b.get("status", -1) < 0:
+            continue
+        ctx.count(1, [r["src"]])
+        if differs(g, b):
+            ctx.fail("stdout_status_equal_bash", {"src": r["src"]}, None,
+                     {"go": [bytes.fromhex(g["out"]).decode("latin1")[:400], g["status"]],
+                      "bash": [bytes.fromhex(b["out"]).decode("latin1")[:400], b["status"]]})
+    ctx.extra["wide_cases"] = len(rows)
+
+
+VERDICTS = os.path.join(ROOT, "corpus", "c26", "verdicts.json")
+
+
+def corpus_leg(ctx, binp, limit):
+    """pinned corpus: the verdict (agrees with bash / differs) of every safe interp_test.go program was
+    recorded by a thorough run on the unchanged tree; only CHANGES of verdict are reported."""
+    try:
+        verdicts = json.load(open(VERDICTS))
+    except (OSError, ValueError):
+        ctx.broken.append(("corpus", "corpus/c26/verdicts.json is missing"))
+        return
+    rc, rows, err = ctx.jsonl([binp, "corpus"], timeout=900)
+    if rc != 0 or not rows:
+        ctx.broken.append(("harness-run", "c26 corpus failed rc=%d %s" % (rc, err[-600:])))
+        return
+    if limit and len(rows) > limit:     # quick tier: a rotating slice, the thorough tier sees all
+        k = (ctx.seed * limit) % len(rows)
+        rows = (rows + rows)[k:k + limit]
+    bres = run_bash([r["src"] for r in rows])
+    changed_bad, changed_good, new = [], 0, 0
+    for r, b in zip(rows, bres):
+        g = r["go"]
+        key = hashlib.sha1(r["src"].encode()).hexdigest()[:16]
+        if g.get("status", -1) < 0 and not g.get("hang") and not g.get("panic") and not g.get("err"):
+            continue
+        now = "differ" if (g.get("hang") or g.get("panic") or g.get("status", -1) < 0 or b.get("status", -1) < 0 or differs(g, b)) else "agree"
+        was = verdicts.get(key)
+        ctx.count(1)
+        if was is None:
+            new += 1
+            if now == "differ":
+                ctx.fail("corpus_program_equal_bash(new program)", {"src": r["src"]}, None, None)
+        elif was == "agree" and now == "differ":
+            ctx.fail("corpus_program_equal_bash(was: agrees)", {"src": r["src"]}, None,
+                     {"go": [bytes.fromhex(g.get("out", "")).decode("latin1")[:300], g.get("status")],
+                      "bash": [bytes.fromhex(b.get("out", "")).decode("latin1")[:300], b.get("status")]})
+        elif was == "differ" and now == "agree":
+            changed_good += 1
+    ctx.extra["corpus"] = {"programs": len(rows), "recorded": len(verdicts), "now_agree_was_differ": changed_good, "new": new}
+
+
 def run(ctx):
     ctx.coq_props()
     binp = ctx.go_build("c26")
@@ -194,7 +312,10 @@ def run(ctx):
                 "if-elif-else/while/until (unary guard, <= 3 rounds)/for/case/functions (no recursion)/return/break n/"
                 "continue n/exit n/set -e/+e/unknown commands; every 10th program may use the constructs of the known "
                 "classes (break 0, return outside a function, bad arguments); non-trivial = distinct source > 40 bytes")
-    core_legs(ctx, binp, 400 if quick else 4000)
+    core_legs(ctx, binp, 250 if quick else 4000)
+    witness_leg(ctx, binp)
+    wide_leg(ctx, binp, 200 if quick else 3000)
+    corpus_leg(ctx, binp, 250 if quick else 0)
     ctx.assumptions += ["stderr is not compared (bash prefixes its messages differently)",
                         "Sem.v is tied to bash by differential testing only (oracle leg)",
                         "the exec handler of the harness refuses every external command with status 127; bash runs with an empty PATH"]
